@@ -528,6 +528,15 @@ func (f *fsm) sendKeepAlive() error {
 	return err
 }
 
+// newStoppedTimer returns a timer that never fires unless it is Reset.
+func newStoppedTimer() *time.Timer {
+	t := time.NewTimer(time.Hour)
+	if !t.Stop() {
+		<-t.C
+	}
+	return t
+}
+
 func (f *fsm) drainAndResetHoldTimer() {
 	if !f.holdTimer.Stop() {
 		<-f.holdTimer.C
@@ -648,6 +657,19 @@ func (f *fsm) openSent() (fsmState, error) {
 					f.keepAliveInterval = f.holdTime / 3
 					f.keepAliveTimer = time.NewTimer(f.keepAliveInterval)
 					f.drainAndResetHoldTimer()
+				} else {
+					// https://tools.ietf.org/html/rfc4271#section-4.2
+					// A negotiated hold time of zero disables the hold and
+					// keepalive timers; keep both non-nil but stopped so the
+					// OpenConfirm and Established selects never fire on them.
+					f.keepAliveInterval = 0
+					f.keepAliveTimer = newStoppedTimer()
+					if !f.holdTimer.Stop() {
+						select {
+						case <-f.holdTimer.C:
+						default:
+						}
+					}
 				}
 
 				return openConfirmState, nil
@@ -728,7 +750,9 @@ func (f *fsm) openConfirm() (fsmState, error) {
 							- restarts the HoldTimer and
 							- changes its state to Established.
 					*/
-					f.drainAndResetHoldTimer()
+					if f.holdTime != 0 {
+						f.drainAndResetHoldTimer()
+					}
 					return establishedState, nil
 				case *Notification:
 					return idleState, newNotificationError(m, false)
